@@ -21,6 +21,7 @@ class ValueProfile:
     use_restart = True
     use_interrupt = True
     use_nf = False
+    intr_reg = False  # F7 may land inside an (otherwise accepted) registration
     use_reg = False  # a registrar client issues (mostly rejected) registrations inside the history
     reg_forms = None
     worlds = [("W-POSC", 0.85), ("W-SIMPLE", 0.15)]
@@ -86,6 +87,8 @@ class ValueProfile:
             "intr_rate": intr_rate,
             "intr_mean": rng.choice([8, 25, 60, 120]),
             "peer_rate": rng.choice([0, 0.1, 0.25]) if dyn_units else 0,
+            "intr_reg_rate": rng.choice([0, 0.15, 0.4]) if (self.use_reg and self.intr_reg) else 0,
+            "sweep_rate": rng.choice([0, 0.3, 0.6]) if (self.use_reg and self.intr_reg) else 0,
             "restart_at": restart_at,
             "flt_kinds": self.flt_kinds,
             "eager_full": rng.random() < 0.6,
@@ -155,6 +158,7 @@ REG_FORMS_SAFE = ["unit_dup", "base_dup", "cat_dup", "cat_foreign_default", "cat
 class C07(ValueProfile):
     prop = "C07"
     use_reg = True
+    intr_reg = True
     reg_forms = REG_FORMS_SAFE
     client_bias = {"inspector": 1.5, "calculator": 1.5, "curator": 0.3, "registrar": 0.4}
     family_bias = {"curve": 0.2, "fixed": 0.4}
@@ -210,6 +214,7 @@ class C05(ValueProfile):
     use_nf = True
     use_restart = False
     use_reg = True
+    intr_reg = True
     reg_forms = ["unit_dup", "unit_dup", "base_dup", "cat_dup", "cat_foreign_default", "cat_foreign_valid", "cat_new", "cat_new", "cat_copy", "cat_bad_limits", "unit_new", "unit_new", "cat_override", "cat_retype", "cat_retype"]
     client_bias = {"saboteur": 3.0, "curator": 0.4, "registrar": 0.6}
     family_bias = {"curve": 0.2}
@@ -223,7 +228,7 @@ class C05(ValueProfile):
         return cfg
 
     def monitors(self, cfg):
-        only_faults = lambda op: bool(op.get("f"))
+        only_faults = lambda op: bool(op.get("f")) and not op["k"].startswith("reg.")
         return [
             Mon.VSweep("C05", oracle="C05.unchanged"),
             Mon.QSweep("C05", eager_full=False, check_cache_keys=False, single_oracle="C05.unchanged"),
